@@ -50,7 +50,7 @@ def daemon_cover(rep, name, c):
     h = segchecks.spec_hash()
     h.update(json.dumps(c, sort_keys=True).encode())
     key = h.hexdigest()[:16]
-    cdir = os.path.join(cb.WORK, "cache")
+    cdir = cb.CACHE
     os.makedirs(cdir, exist_ok=True)
     bfile = os.path.join(cdir, f"d_{name}_{key}.ndjson")
     meta = bfile + ".json"
@@ -70,7 +70,7 @@ def daemon_cover(rep, name, c):
     os.remove(out)
     behs = cb.behaviours_from_edges(edges)
     cb.write_behaviours(bfile, behs, {"cfg": name, "consts": {"PhcConfigured": c["phc"], "Drift": 50000}})
-    json.dump({"distinct": r.distinct, "generated": r.generated, "depth": r.depth, "behaviours": len(behs)}, open(meta, "w"))
+    cb.write_json_atomic(meta, {"distinct": r.distinct, "generated": r.generated, "depth": r.depth, "behaviours": len(behs)})
     rep.add_tlc(r, f"TLC Daemon cover {name}: {len(edges)} transitions, {len(behs)} maximal paths")
     cb.prune_cache(cdir, "d_" + name)
     return bfile, len(behs)
